@@ -17,6 +17,7 @@ import (
 func init() {
 	register(&Property{
 		ID:      "C08",
+		NeedGen: true,
 		Runtime: RuntimeCore,
 		Run:     runC08,
 		Explanation: "Only the structural guards of serialisation (the byte-level correctness of the escaper and round trips are value-level and NOT decided): (punctuation) FieldSet.MarshalGQL and Array.MarshalGQL write the " +
@@ -288,6 +289,7 @@ func runC08(c *Ctx) {
 	omittableSetOnSuccess(c)
 	parseWidth(c)
 	jsonControlBound(c)
+	nilListIsNullOnly(c)
 
 	// ---------------------------------------------------------------------------------------------
 	c.R.Rule("utf8", "the quoting sink (writeQuotedString) reaches a UTF-8 validity operation (utf8.RuneError comparison, utf8.Valid*, strings.ToValidUTF8), and its replacement branch depends on the decoded width so that an encoded U+FFFD is preserved", 2)
